@@ -215,6 +215,7 @@ func (r *runner) observeOwn(where string) error {
 	for _, f := range want.set {
 		names = append(names, f.Name)
 	}
+	sort.Strings(names)
 	if strings.Join(got, ",") != strings.Join(names, ",") {
 		return vio("not-exactly-one-write-set", "%s: the target lists [%s], want exactly the set of write %s %v", where, strings.Join(got, ","), want.tag, want.set)
 	}
